@@ -114,6 +114,14 @@ class BaseSolver(ABC):
                 "Sparse X must be in CSC format (scipy.sparse.csc_matrix), "
                 f"got format '{X.format}'. Convert it with `X.tocsc()`.")
 
+        # the kernels are compiled for floating-point data: integer (or boolean) X
+        # truncates the Lipschitz constants and silently solves another problem
+        dtype = getattr(X, "dtype", None)
+        if dtype is not None and dtype.kind != "f":
+            raise ValueError(
+                f"X must have a floating-point dtype, got dtype '{dtype}'. "
+                "Convert it with `X.astype(float)`.")
+
         # execute: `custom_checks` then check attributes
         self.custom_checks(X, y, datafit, penalty)
 
